@@ -13,20 +13,21 @@ structure PartLaws (P : Parts) where
   normGlyph : P.Glyph → P.Glyph
   /-- **glyph files** — C02 `glif_roundtrip_partial_no_object_libs` / `parse_encode` -/
   glyph_rt : ∀ g, glyphOK g → P.decGlyph (P.encGlyph g) = some (normGlyph g)
-  /-- a glyph that was read back can be written again and is already normal (needed for C04 only) -/
-  norm_ok : ∀ g, glyphOK g → glyphOK (normGlyph g)
-  norm_idem : ∀ g, glyphOK g → normGlyph (normGlyph g) = normGlyph g
   /-- **other font-info fields** — serde field table ↔ plist dictionary for a valid value -/
   rest_rt : ∀ r, P.restValid r = true → P.decRest (P.encRest r) = some r
+
+/-- needed for C04 only: a glyph that was read back is inside the guard again -/
+structure NormLaws {P : Parts} (L : PartLaws P) : Prop where
+  norm_ok : ∀ g, L.glyphOK g → L.glyphOK (L.normGlyph g)
 
 /-- the laws hold trivially for opaque tokens -/
 def tokenLaws : PartLaws tokenParts where
   glyphOK := fun _ => True
   normGlyph := id
   glyph_rt := fun _ _ => rfl
-  norm_ok := fun _ _ => trivial
-  norm_idem := fun _ _ => rfl
   rest_rt := fun _ _ => rfl
+
+theorem tokenNorm : NormLaws tokenLaws := ⟨fun _ _ => trivial⟩
 
 variable {P : Parts} (L : PartLaws P)
 
